@@ -202,6 +202,26 @@ type Spec struct {
 	Table    []Entry `json:"table"`
 	Upstream string  `json:"upstream"` // "none" | "static" | "static-userinfo" | "pac"
 	Auth     bool    `json:"auth"`     // this proxy requires basic auth
+	MITM     bool    `json:"mitm"`     // every CONNECT is intercepted; the session's requests travel inside the TLS session
+	Reverse  bool    `json:"reverse"`  // "pac2": visit the second proxy's targets first
+	// ports of the two scripted upstream proxies in the run that produced the case: a replay re-points
+	// table entries naming them to the ports of its own run
+	UpPort  string `json:"up_port"`
+	Up2Port string `json:"up2_port"`
+}
+
+// pac2 selects one of two upstream proxies ON THE SAME HOST (different ports) by the request's host name.
+type pac2 struct{ first, second string }
+
+func pac2Second(host string) bool {
+	return strings.HasPrefix(host, "other.") || strings.HasPrefix(host, "[2001")
+}
+
+func (p pac2) FindProxyForURL(u *url.URL, _ string) (string, error) {
+	if pac2Second(u.Host) {
+		return "PROXY " + p.second, nil
+	}
+	return "PROXY " + p.first, nil
 }
 
 type pacStub struct{ answer string }
@@ -216,6 +236,8 @@ type ReqSpec struct {
 	InnerHdr [][2]string `json:"inner_headers"`
 	AuthTag  string      `json:"auth_tag"`
 	PATag    string      `json:"pa_tag"`
+	Inner    bool        `json:"inner"`      // sent inside an intercepted TLS session
+	AbsForm  string      `json:"abs_scheme"` // Inner: "" = origin-form, else the scheme of the absolute-form target the client writes
 }
 
 func (q ReqSpec) raw() accessrig.RawReq {
@@ -228,6 +250,13 @@ func (q ReqSpec) raw() accessrig.RawReq {
 	body := ""
 	if q.Method == "POST" {
 		body = "payload"
+	}
+	if q.Inner {
+		target := "/vf"
+		if q.AbsForm != "" {
+			target = q.AbsForm + "://" + q.Host + "/vf"
+		}
+		return accessrig.RawReq{Raw: accessrig.BuildRaw(q.Method, target, "1.1", hs, body), Method: q.Method}
 	}
 	scheme := q.Scheme
 	if scheme == "" {
@@ -297,10 +326,15 @@ type Case struct {
 	Index   int                `json:"index"`
 	Req     ReqSpec            `json:"req"`
 	Obs     accessrig.Obs      `json:"obs"`
+	Connect *accessrig.RawReq  `json:"connect,omitempty"` // MITM: the CONNECT that opened the intercepted tunnel
+	// history on the same proxy instance: the session that ran just before (PAC: routed to the other proxy)
+	PrevSession []accessrig.RawReq `json:"prev_session,omitempty"`
 }
 
 func coqUpstream(s Spec, upAddr string) string {
 	switch s.Upstream {
+	case "pac2":
+		return fmt.Sprintf("(UpPac %s %s)", coqfmt.Str("http"), coqfmt.Str(upAddr))
 	case "static":
 		return fmt.Sprintf("(UpStatic %s %s None)", coqfmt.Str("http"), coqfmt.Str(upAddr))
 	case "static-userinfo":
@@ -319,7 +353,7 @@ func coqCase(s Spec, upAddr string, raw accessrig.RawReq, q ReqSpec, o accessrig
 	var msgs []string
 	for _, m := range o.Msgs {
 		to, kind := "ToOrigin", "GPlain"
-		if m.Peer == "upstream" {
+		if strings.HasPrefix(m.Peer, "upstream") {
 			to = "ToProxy"
 		}
 		switch {
@@ -343,9 +377,22 @@ func coqCase(s Spec, upAddr string, raw accessrig.RawReq, q ReqSpec, o accessrig
 	if scheme == "" && req.Method != http.MethodConnect {
 		scheme = "http"
 	}
-	return fmt.Sprintf("{| f_entries := %s; f_up := %s; f_req := {| r_method := %s; r_host := %s; r_hdr := %s |}; f_scheme := %s; f_inner_auth := %s; f_msgs := %s |}",
+	claimed := scheme
+	if q.Inner {
+		// Proxy.fixRequestScheme: the request line's scheme, else X-Forwarded-Proto, else https (TLS session);
+		// the request really travels over TLS
+		claimed = req.URL.Scheme
+		if claimed == "" {
+			claimed = req.Header.Get("X-Forwarded-Proto")
+		}
+		if claimed == "" {
+			claimed = "https"
+		}
+		scheme = "https"
+	}
+	return fmt.Sprintf("{| f_entries := %s; f_up := %s; f_req := {| r_method := %s; r_host := %s; r_hdr := %s |}; f_scheme := %s; f_mitm := %s; f_claimed := %s; f_inner_auth := %s; f_msgs := %s |}",
 		coqEntries(s.Table), coqUpstream(s, upAddr), coqfmt.Str(req.Method), coqfmt.Str(req.URL.Host), coqfmt.Header(req.Header),
-		coqfmt.Str(scheme), coqfmt.StrList(innerAuth), coqfmt.List("gmsg", msgs)), true
+		coqfmt.Str(scheme), coqfmt.Bool(q.Inner), coqfmt.Str(claimed), coqfmt.StrList(innerAuth), coqfmt.List("gmsg", msgs)), true
 }
 
 func writeShard(dir, name, typ, modelF, propF string, cases []string) error {
@@ -416,10 +463,13 @@ func main() {
 	upAddr := rig.UpstreamAddr()
 	upHost, upPort := "127.0.0.1", upAddr[strings.LastIndex(upAddr, ":")+1:]
 
+	up2Addr := rig.Upstream2Addr()
+	up2Port := up2Addr[strings.LastIndex(up2Addr, ":")+1:]
 	type job struct {
 		spec    Spec
 		session []accessrig.RawReq
 		reqs    []ReqSpec
+		connect *accessrig.RawReq
 	}
 	var jobs []job
 	if *replay != "" {
@@ -436,7 +486,19 @@ func main() {
 			os.Exit(3)
 		}
 		// entries naming the upstream proxy's address of the original run are re-pointed to this run's address
-		jobs = append(jobs, job{spec: c.Spec, session: c.Session, reqs: []ReqSpec{c.Req}})
+		for i := range c.Spec.Table {
+			switch c.Spec.Table[i].Port {
+			case c.Spec.UpPort:
+				c.Spec.Table[i].Port = upPort
+			case c.Spec.Up2Port:
+				c.Spec.Table[i].Port = up2Port
+			}
+		}
+		c.Spec.UpPort, c.Spec.Up2Port = upPort, up2Port
+		if len(c.PrevSession) > 0 {
+			jobs = append(jobs, job{spec: c.Spec, session: c.PrevSession, reqs: make([]ReqSpec, len(c.PrevSession))})
+		}
+		jobs = append(jobs, job{spec: c.Spec, session: c.Session, reqs: []ReqSpec{c.Req}, connect: c.Connect})
 		for len(jobs[0].reqs) < len(c.Session) {
 			jobs[0].reqs = append(jobs[0].reqs, c.Req)
 		}
@@ -503,11 +565,97 @@ func main() {
 				}
 			}
 		}
+		// ---- two PAC-selected proxies on the same host, different ports, port-specific entries; the proxy
+		//      instance sees the targets of one proxy first, then those of the other (both orders)
+		pacTables := [][]Entry{
+			{{upHost, upPort, "up1", "up1pw"}, {upHost, up2Port, "up2", "up2pw"}},
+			{{upHost, upPort, "up1", "up1pw"}},
+			{{upHost, up2Port, "up2", "up2pw"}, {"*", upPort, "anyp1", "anyp1pw"}},
+		}
+		for _, tb := range pacTables {
+			for _, rev := range []bool{false, true} {
+				s := Spec{ID: id, Table: tb, Upstream: "pac2", Reverse: rev}
+				id++
+				groups := [][]string{{"example.test", "example.test:8080"}, {"other.test", "other.test:8080"}}
+				if rev {
+					groups[0], groups[1] = groups[1], groups[0]
+				}
+				for round := 0; round < 2; round++ {
+					for _, g := range groups {
+						for _, t := range g {
+							ct := t
+							if !strings.Contains(t, ":") {
+								ct = t + ":443"
+							}
+							for _, q := range []ReqSpec{
+								{Method: "GET", Host: t, AuthTag: "absent", PATag: "absent"},
+								{Method: "CONNECT", Host: ct, AuthTag: "absent", PATag: "absent"},
+								{Scheme: "https", Method: "GET", Host: t, AuthTag: "absent", PATag: "absent"},
+							} {
+								jobs = append(jobs, job{spec: s, session: []accessrig.RawReq{q.raw()}, reqs: []ReqSpec{q}})
+							}
+						}
+					}
+				}
+			}
+		}
+		// ---- MITM: requests inside an intercepted TLS session that CLAIM to be http (X-Forwarded-Proto, absolute
+		//      http:// target) while they really go to port 443 over TLS; entries differ by port
+		mitmTables := [][]Entry{
+			{{"example.test", "80", "u80", "u80pw"}, {"example.test", "443", "u443", "u443pw"}},
+			{{"*", "80", "w80", "w80pw"}, {"*", "443", "w443", "w443pw"}},
+			{{"example.test", "80", "u80", "u80pw"}},
+			{{"*", "80", "w80", "w80pw"}, {"example.test", "0", "hany", "hanypw"}},
+			{{"example.test", "443", "u443", "u443pw"}, {"*", "0", "glob", "globpw"}},
+		}
+		for _, tb := range mitmTables {
+			s := Spec{ID: id, Table: tb, Upstream: "none", MITM: true}
+			id++
+			var inner []ReqSpec
+			for _, h := range []string{"example.test", "other.test", "example.test:443", "example.test:8443"} {
+				for _, abs := range []string{"", "http", "https"} {
+					for _, xfp := range []string{"", "http", "https"} {
+						for _, a := range authShapes()[:3] {
+							hs := append([][2]string{}, a.lines...)
+							if xfp != "" {
+								hs = append(hs, [2]string{"X-Forwarded-Proto", xfp})
+							}
+							inner = append(inner, ReqSpec{Inner: true, Method: "GET", Host: h, AbsForm: abs, Headers: hs, AuthTag: a.tag, PATag: "claims-" + abs + "/" + xfp})
+						}
+					}
+				}
+			}
+			for i := len(inner) - 1; i > 0; i-- {
+				j := r.Intn(i + 1)
+				inner[i], inner[j] = inner[j], inner[i]
+			}
+			if budget > 0 && len(inner) > 48 {
+				inner = inner[:48]
+			}
+			for i := 0; i < len(inner); {
+				n := 1 + r.Intn(4)
+				if i+n > len(inner) {
+					n = len(inner) - i
+				}
+				cq := ReqSpec{Method: "CONNECT", Host: "example.test:443"}
+				craw := cq.raw()
+				craw.Inner = ""
+				j := job{spec: s, connect: &craw}
+				for _, q := range inner[i : i+n] {
+					j.session = append(j.session, q.raw())
+					j.reqs = append(j.reqs, q)
+				}
+				jobs = append(jobs, j)
+				i += n
+			}
+		}
 	}
 
 	var cases []Case
 	var cur *accessrig.Proxy
 	curID := -1
+	prevID := -1
+	var prevSession []accessrig.RawReq
 	for _, j := range jobs {
 		if cur == nil || j.spec.ID != curID {
 			if cur != nil {
@@ -527,7 +675,10 @@ func main() {
 				ps.Upstream = &url.URL{Scheme: "http", Host: upAddr, User: url.UserPassword("urluser", "urlpw")}
 			case "pac":
 				ps.PAC = pacStub{"PROXY " + upAddr + "; DIRECT"}
+			case "pac2":
+				ps.PAC = pac2{first: upAddr, second: up2Addr}
 			}
+			ps.MITM = j.spec.MITM
 			p, err := rig.StartProxy(ps)
 			if err != nil {
 				panic(err)
@@ -535,9 +686,27 @@ func main() {
 			cur, curID = p, j.spec.ID
 			m.Configs++
 		}
-		obs := rig.Session(cur, j.session)
+		j.spec.UpPort, j.spec.Up2Port = upPort, up2Port
+		var obs []accessrig.Obs
+		if j.connect != nil {
+			_, obs = rig.SessionMITM(cur, *j.connect, j.session)
+		} else {
+			obs = rig.Session(cur, j.session)
+		}
+		if j.spec.ID != prevID {
+			prevID, prevSession = j.spec.ID, nil
+		}
+		// history that matters on one instance: the very first session it served (it went to the other proxy
+		// for the second half of the run)
+		thisPrev := prevSession
+		if prevSession == nil {
+			prevSession = j.session
+		}
 		for i, o := range obs {
-			c := Case{Spec: j.spec, Session: j.session, Index: i, Req: j.reqs[i], Obs: o}
+			c := Case{Spec: j.spec, Session: j.session, Index: i, Req: j.reqs[i], Obs: o, Connect: j.connect}
+			if j.spec.Upstream == "pac2" {
+				c.PrevSession = thisPrev
+			}
 			cases = append(cases, c)
 			m.Exchanges++
 			if o.FromPeer == "" {
@@ -576,7 +745,13 @@ func main() {
 		if c.Obs.FromPeer == "" {
 			continue // not forwarded (would be an access-control matter); counted above
 		}
-		s, ok := coqCase(c.Spec, upAddr, c.Session[c.Index], c.Req, c.Obs)
+		ua := upAddr
+		if c.Spec.Upstream == "pac2" {
+			if rq, err := accessrig.ParseRaw(c.Session[c.Index].Raw); err == nil && pac2Second(rq.URL.Host) {
+				ua = up2Addr
+			}
+		}
+		s, ok := coqCase(c.Spec, ua, c.Session[c.Index], c.Req, c.Obs)
 		if !ok {
 			continue
 		}
